@@ -217,9 +217,42 @@ def gen_case(rng, K, regime=None):
     return {"label": label, "lam": lam, "pi": tensor_hex(pi), "q": tensor_hex(q), "K": K, "C": C, "N": N}
 
 
+def gen_evolution(rng, K, steps):
+    """consecutive, closely related problems, as one node of a growing tree poses them: the priors
+    stay, N rises by one per call (so the multiplier barely moves), and each time one child's q
+    changes - an unvisited child receives its first value (possibly above everything seen so far),
+    a visited one moves a little.  The solver is a function of its arguments: what it was asked
+    before must not matter.  Each case carries the chain that preceded it (`history`)."""
+    import torch
+
+    c = gen_case(rng, K, rng.choice([None, None, "collapse", "ties"]))
+    C = rng.choice(CS)
+    N = rng.choice([1, 2, 5, 30, 200, 2000, 20000])
+    q = [float(hex_f32(h)) for h in c["q"]]
+    out, hist = [], []
+    for j in range(steps):
+        lam = f32(C * math.sqrt(N + j) / (N + j + K))
+        cj = {"label": c["label"].rsplit("|", 1)[0] + "|evolution", "lam": lam, "pi": list(c["pi"]), "q": tensor_hex(torch.tensor(q)), "K": K, "C": C, "N": N + j, "history": list(hist)}
+        out.append(cj)
+        hist.append({"lam": f32hex(lam), "pi": cj["pi"], "q": cj["q"]})
+        hist = hist[-6:]
+        i = rng.randrange(K)
+        r = rng.random()
+        if r < 0.45:
+            q[i] = rng.choice([1.0, 1.0, 0.75, rng.uniform(max(q), 1.0) if max(q) < 1.0 else 1.0])
+        elif r < 0.75:
+            q[i] = max(-1.0, min(1.0, q[i] + rng.uniform(-0.05, 0.05)))
+        else:
+            q[i] = _qvalue(rng, q[i])
+    return out
+
+
 def cases(ctx, scale):
     """scale: multiplier of the per-K plan"""
     rng = ctx.rng
+    for K, n in {2: 10, 3: 10, 12: 16, 30: 12, 135: 6}.items():
+        for j in range(max(1, int(n * scale))):
+            yield from gen_evolution(rng, K, rng.choice([3, 5, 8]))
     plan = {1: 30, 2: 120, 3: 120, 9: 160, 30: 220, 135: 120, 496: 40, 1575: 10, 4572: 4}
     regimes = [None, None, None, "collapse", "collapse", "nearzero", "bigK-smallN", "ties"]
     for K, n in plan.items():
@@ -387,7 +420,10 @@ def mismatches(c):
 
 
 def replay_of(c):
-    return {"lam": f32hex(c["lam"]), "pi": c["pi"], "q": c["q"]}
+    r = {"lam": f32hex(c["lam"]), "pi": c["pi"], "q": c["q"]}
+    if c.get("history"):
+        r["history"] = c["history"]  # the calls made just before this one, oldest first
+    return r
 
 
 def case_of(r):
@@ -498,11 +534,18 @@ def _violations(cs):
     for key, lst in seen.items():
         lst.sort(key=lambda cw: cw[0]["K"])
         c, what = lst[0]
+        note = ""
         try:
-            c = _shrink(c, key)
-            what = [w for k, w in problems(c) if k == key][0]
+            alone = run_case(case_of(replay_of({k_: v_ for k_, v_ in c.items() if k_ != "history"})))
+            judge([alone])
+            if c.get("history") and not any(k == key for k, _ in problems(alone)):
+                note = "; the same input asked on its own is answered correctly - the answer depends on the %d calls made before it (kept in the replay as history)" % len(c["history"])
+            else:
+                c = _shrink(c, key)
+                what = [w for k, w in problems(c) if k == key][0]
         except Exception:  # noqa
             pass
+        what += note
         lam = c["lam"]
         desc = "%s; K=%d lambda=%r pi=[%s%s] q=[%s%s] (%d such inputs in this run)" % (
             what,
@@ -536,6 +579,8 @@ def search(ctx, divergences, broken):
 
 def replay(ctx, data):
     r = data.get("replay", data)
+    for h in r.get("history", []):
+        run_case(case_of(h))  # same interpreter, same thread: the calls that preceded the failing one
     c = run_case(case_of(r))
     judge([c])
     ctx.evaluated()
